@@ -661,6 +661,9 @@ func ruleOptExcl(p *Prog, r *Report) {
 				if b, isc := constBool(val); isc && !b {
 					continue
 				}
+				if cz.of(val) == "!(load(mxj.xmlEscapeCharsDecoder))" {
+					continue // true exactly when decoder-side escaping is off
+				}
 				// storing true or a non-constant: decoder flag must be known false on this path
 				safe := false
 				for _, c := range path.Conds {
